@@ -5,7 +5,7 @@
     are those of `den`, plus the membership tests on enums and constants, which `den` does not make).
 -/
 import Cog.Sem.WidenOpt
-namespace Cog.Sem
+namespace Cog.Sem.Src
 open Cog.IR Cog.Passes
 open NotRequiredFieldAsNullableType (vTy vFields fixField)
 
@@ -215,4 +215,4 @@ theorem xdenF_den (S : Schemas) (hP : Plain S = true) : ∀ n t j, plainTy t = t
     | slot _ _ => simp [plainTy] at hp
     | bad _ _ => simp [plainTy] at hp
 
-end Cog.Sem
+end Cog.Sem.Src
